@@ -88,8 +88,20 @@ func genSelfPermitsCase(r *rand.Rand, idx int64) *checkCase {
 	x := &Expr{Op: "csr", Rel: "x"}
 	selfA := &Expr{Op: "csr", Rel: "a", ViaPermits: true}
 	selfB := &Expr{Op: "csr", Rel: "b", ViaPermits: true}
-	var a, b *Expr
-	switch r.IntN(5) {
+	selfC := &Expr{Op: "csr", Rel: "c", ViaPermits: true}
+	var a, b, c3 *Expr
+	switch r.IntN(8) {
+	case 5:
+		// mutual recursion where BOTH references sit below && (no depth is spent)
+		a = &Expr{Op: "and", Kids: []*Expr{x, selfB}}
+		b = &Expr{Op: "and", Kids: []*Expr{x, selfA}}
+	case 6:
+		a = &Expr{Op: "and", Kids: []*Expr{x, {Op: "not", Kids: []*Expr{selfB}}}}
+		b = &Expr{Op: "and", Kids: []*Expr{{Op: "not", Kids: []*Expr{selfA}}, x}}
+	case 7:
+		a = &Expr{Op: "and", Kids: []*Expr{x, selfB}}
+		b = &Expr{Op: "not", Kids: []*Expr{selfC}}
+		c3 = &Expr{Op: "and", Kids: []*Expr{selfA, x}}
 	case 0:
 		a = &Expr{Op: "and", Kids: []*Expr{x, selfA}}
 	case 1:
@@ -106,9 +118,15 @@ func genSelfPermitsCase(r *rand.Rand, idx int64) *checkCase {
 	if b != nil {
 		doc.Rels = append(doc.Rels, &RelDef{Name: "b", Perm: true, Rewrite: b})
 	}
+	if c3 != nil {
+		doc.Rels = append(doc.Rels, &RelDef{Name: "c", Perm: true, Rewrite: c3})
+	}
 	cc.Cfg = &Cfg{NS: []*NSDef{user, doc}}
 	cc.tuples = []*Tup{tupID("Doc", "d", "x", "u")}
 	cc.queries = []*Tup{tupID("Doc", "d", "a", "u"), tupID("Doc", "d", "a", "nobody")}
+	if b != nil {
+		cc.queries = append(cc.queries, tupID("Doc", "d", "b", "u"))
+	}
 	cc.Tuples, cc.Queries = tupStrings(cc.tuples), tupStrings(cc.queries)
 	return cc
 }
@@ -222,7 +240,15 @@ func runTerm(env *Env, st *instrStore, eng *check.Engine, q *Tup, plan *faultPla
 		cancel()
 	}
 	done := make(chan checkgroup.Result, 1)
-	go func() { done <- eng.CheckRelationTuple(ctx, its[0], 0) }()
+	go func() {
+		if c15BatchTuples != nil {
+			// the batch entry point: one engine call that runs CheckRelationTuple per entry
+			_, err := eng.BatchCheck(ctx, c15BatchTuples, 0)
+			done <- checkgroup.Result{Err: err}
+			return
+		}
+		done <- eng.CheckRelationTuple(ctx, its[0], 0)
+	}()
 	select {
 	case tr.res = <-done:
 		tr.returned = true
@@ -320,6 +346,10 @@ func runTerm(env *Env, st *instrStore, eng *check.Engine, q *Tup, plan *faultPla
 	}
 	return tr
 }
+
+// c15BatchTuples: when set, runTerm drives Engine.BatchCheck with these entries
+// (more entries than the parallelization limit) instead of one CheckRelationTuple.
+var c15BatchTuples []*Tup
 
 const sameQueryRepeatLimit = 8000
 
@@ -583,6 +613,44 @@ func runC15Case(run *runner, idx int64, cc *checkCase, maxK int64) string {
 				tr := runTerm(env, st, eng, q, &faultPlan{FailAt: k, Persistent: persistent, Err: fk.err}, false, false, bound)
 				if judge(tr, fmt.Sprintf("q%d/fail@%d/%v", qi, k, persistent), fmt.Sprintf("storage call %d failing (%s, persistent=%v)", k, fk.name, persistent)) {
 					run.count("fault_points", 1)
+				}
+				if env.dirty {
+					return verdict
+				}
+			}
+		}
+	}
+	// the same guarantees for the batch entry point (more entries than workers):
+	// cancellation before the start, a deadline, cancellation at the first storage calls
+	if len(cc.queries) > 0 && !env.dirty && cc.Variant != "self-permits" && idx%2 == 0 {
+		var bt []*Tup
+		for len(bt) < 12 {
+			bt = append(bt, cc.queries...)
+		}
+		c15BatchTuples = bt[:12]
+		defer func() { c15BatchTuples = nil }()
+		q := cc.queries[0]
+		tr0 := runTerm(env, st, eng, q, nil, false, false, 0)
+		if judge(tr0, "batch/plain", "batch of 12 entries, no fault") && !env.dirty {
+			run.count("batch_termination_runs", 1)
+			N := tr0.calls
+			for _, mode := range []string{"precancel", "deadline"} {
+				tr := runTerm(env, st, eng, q, nil, mode == "precancel", mode == "deadline", 0)
+				if judge(tr, "batch/"+mode, "batch of 12 entries, "+mode) {
+					run.count("cancel_points", 1)
+				}
+				if env.dirty {
+					return verdict
+				}
+			}
+			K := N
+			if K > 6 {
+				K = 6
+			}
+			for k := int64(1); k <= K; k++ {
+				tr := runTerm(env, st, eng, q, &faultPlan{CancelAtStart: k}, false, false, 0)
+				if judge(tr, fmt.Sprintf("batch/cancel@%d", k), fmt.Sprintf("batch of 12 entries, context cancelled at storage call %d", k)) {
+					run.count("cancel_points", 1)
 				}
 				if env.dirty {
 					return verdict
